@@ -3,7 +3,7 @@
    Statements only. *)
 From Coq Require Import ZArith List Bool.
 From CP Require Import Core.Bytes Core.Result Frame.LVFrame Frame.Units Opp.Rdp Lemmas.UnitLemmas Lemmas.UnitInstances Lemmas.OppLemmas.
-From CP Require Import Spec.Registry Lemmas.RegistryTables.
+From CP Require Import Spec.Registry Lemmas.RegistryOpp.
 From CPGen Require Import Tables.
 Open Scope Z_scope.
 
